@@ -118,6 +118,59 @@ theorem holdsB (cfg : Cfg) (D : DTab) : (b : LBlock) → ∀ (G : Facts) (st : S
         · exact huse y h hmem
 end
 
+/- ===== `AgreeB` implies the decidable link validation `soundChkB` (any fuel) ===== -/
+theorem chkAt_of_sigIs {D : DTab} {o : Option StateId} {r : Row} (fuel : Nat) (h : SigIs D [] o r) :
+    chkAt D fuel o r = true := by
+  cases o with
+  | none => simp [chkAt]
+  | some v =>
+    simp only [chkAt]
+    cases hm : inferL D fuel [] v with
+    | none => rfl
+    | some s =>
+      obtain ⟨s0, hinf, hnd, hr⟩ := h
+      have := hinf.of_run hm
+      subst this
+      simp only [subRow, List.all_eq_true, beq_iff_eq]
+      intro p hp
+      rw [← hr p.1]
+      exact lookup_of_mem_nodup s hnd p hp
+
+mutual
+theorem agree_soundChkS (D : DTab) (fuel : Nat) : (s : LStmt) → ∀ G : Facts, (∀ a, AgreeS a D [] s G) →
+    soundChkS D fuel s G = true
+  | .setup a fs out inp, G, h => by
+      have := h a; simp only [AgreeS] at this
+      simpa [soundChkS] using chkAt_of_sigIs fuel (this trivial).1
+  | .empty _ _, _, _ => by simp [soundChkS]
+  | .launch a lv st cur, G, h => by
+      simp only [soundChkS]
+      cases cur with
+      | false => simp
+      | true =>
+        have := h a; simp only [AgreeS] at this
+        obtain ⟨v, hv, hg⟩ := this trivial trivial
+        subst hv
+        simpa using chkAt_of_sigIs (o := some v) fuel hg
+  | .await _, _, _ => by simp [soundChkS]
+  | .pure _ _ _, _, _ => by simp [soundChkS]
+  | .call _ _, _, _ => by simp [soundChkS]
+  | .ifS c t e res, G, h => by
+      simp only [soundChkS, Bool.and_eq_true]
+      exact ⟨agree_soundChkB D fuel t G (fun a => by have := h a; simp only [AgreeS] at this; exact this.1),
+        agree_soundChkB D fuel e G (fun a => by have := h a; simp only [AgreeS] at this; exact this.2.1)⟩
+  | .forS lb ub step iv b car, G, h => by
+      simp only [soundChkS]
+      exact agree_soundChkB D fuel b _ (fun a => by have := h a; simp only [AgreeS] at this; exact this.1)
+theorem agree_soundChkB (D : DTab) (fuel : Nat) : (b : LBlock) → ∀ G : Facts, (∀ a, AgreeB a D [] b G) →
+    soundChkB D fuel b G = true
+  | .nil, _, _ => by simp [soundChkB]
+  | .cons s r, G, h => by
+      simp only [soundChkB, Bool.and_eq_true]
+      exact ⟨agree_soundChkS D fuel s G (fun a => by have := h a; simp only [AgreeB] at this; exact this.1),
+        agree_soundChkB D fuel r _ (fun a => by have := h a; simp only [AgreeB] at this; exact this.2)⟩
+end
+
 /- ===== the inserted empty setups are no-ops ===== -/
 theorem setRegs_nil (r : Regs) (env : Env) (a : AccId) : setRegs r env a [] = r := by
   funext a' f; simp [setRegs, List.lookup]
